@@ -452,11 +452,14 @@ func (ssc *defaultStatefulSetControl) updateStatefulSet(
 			if err := ssc.podControl.DeleteStatefulPod(set, replicas[i]); err != nil {
 				return &status, err
 			}
-			if getPodRevision(replicas[i]) == currentRevision.Name {
-				status.CurrentReplicas--
-			}
-			if getPodRevision(replicas[i]) == updateRevision.Name {
-				status.UpdatedReplicas--
+			// a terminating pod was not counted as current/updated above
+			if !isTerminating(replicas[i]) {
+				if getPodRevision(replicas[i]) == currentRevision.Name {
+					status.CurrentReplicas--
+				}
+				if getPodRevision(replicas[i]) == updateRevision.Name {
+					status.UpdatedReplicas--
+				}
 			}
 			status.Replicas--
 			replicas[i] = newVersionedStatefulSetPod(
